@@ -5,6 +5,7 @@ package main
 // report violations.
 
 import (
+	"context"
 	"encoding/json"
 	"flag"
 	"fmt"
@@ -233,6 +234,9 @@ func cmdCheck(args []string) int {
 			// vacuity guards: preconditions, states after contract calls, loop
 			// bodies and at least one normal exit must be satisfiable
 			coverFails = append(coverFails, evalCovers(res, filepath.Join(outDir, sanitize(res.Func)), e.preludeText(res, res.Axioms))...)
+			for _, dbr := range res.DeadAfterCall {
+				coverFails = append(coverFails, label+"#cover.branch: "+dbr+" is unreachable although the code tests the result of a call replaced by its contract: the contract (or an invariant assumed with it) contradicts that outcome, everything behind the branch would hold vacuously")
+			}
 		}
 	}
 	// thorough tier, second opinion: verify again WITHOUT state merging (every
@@ -383,8 +387,9 @@ func cmdCheck(args []string) int {
 	for _, c := range coverFails {
 		total++
 		violations++
-		rp := writeReplay(P, "vacuous."+sanitize(c), map[string]interface{}{"obligation": c, "reason": "preconditions are unsatisfiable: every obligation of the function would hold vacuously"})
+		rp := writeReplay(P, "vacuous."+sanitize(c), map[string]interface{}{"obligation": c, "reason": "vacuity guard: assumptions are unsatisfiable (preconditions, an assumed contract, an invariant or an axiom): obligations behind this point would hold vacuously"})
 		lines = append(lines, fmt.Sprintf("VIOLATION property=%s replay=%s no-failing-input-found", P, rp))
+		lines = append(lines, "  vacuous: "+c)
 	}
 	for _, l := range lines {
 		fmt.Println(l)
@@ -688,8 +693,36 @@ func runLemmas(P, tier, outDir string) ([]*obSummary, []string) {
 		}
 		out = append(out, s)
 	}
+	// thorough tier: the Lean proofs behind the SMT axioms of this property are re-checked
+	// (/verif/lemmas/lean/*.lean, listed per property in leanLemmas); each file is one obligation
+	if tier == "thorough" {
+		for _, lf := range leanLemmas[P] {
+			f := filepath.Join(verifRoot, "lemmas", "lean", lf)
+			name := "lemma#lean." + strings.TrimSuffix(lf, ".lean")
+			t0 := time.Now()
+			ctx, cancel := context.WithTimeout(context.Background(), 10*time.Minute)
+			outb, err := exec.CommandContext(ctx, "lean", f).CombinedOutput()
+			cancel()
+			s := &obSummary{Name: name, Func: "lemma", Kind: "lemma", Text: "Lean 4 + Mathlib accept every theorem of " + lf + " (the statements behind the prelude axioms)", Instances: 1, Verdict: "discharged", Solvers: []string{"lean"}, Seconds: time.Since(t0).Seconds()}
+			if err != nil || strings.Contains(string(outb), "error") || strings.Contains(string(outb), "sorry") {
+				s.Verdict = "unknown"
+				s.Failing = 1
+				msg := string(outb)
+				if len(msg) > 2000 {
+					msg = msg[:2000]
+				}
+				s.worst = &Oblig{Name: name, Res: SolverResult{Verdict: "unknown", Solver: "lean", Output: msg}}
+				s.queryFile = f
+			}
+			out = append(out, s)
+			notes = append(notes, "Lean-checked in this run: "+lf)
+		}
+	}
 	return out, notes
 }
+
+// leanLemmas: the Lean files whose theorems are used as SMT axioms by a property's contracts
+var leanLemmas = map[string][]string{"C16": {"GraphReach.lean", "FiniteMeasure.lean"}}
 
 func firstComment(file string) string {
 	data, err := os.ReadFile(file)
